@@ -1160,13 +1160,24 @@ where
                 _ => None,
             };
 
+            // Match native `open_input`: a batch whose tallest matrix is shorter than the
+            // global maximum is opened at `index >> (log_global_max_height - log_batch_max_height)`,
+            // i.e. with the low index bits dropped.
+            let log_batch_max_height = mats
+                .iter()
+                .map(|(domain, _)| domain.log_size() + log_blowup)
+                .max()
+                .unwrap_or(0);
+            let bits_reduced = index_bits.len().saturating_sub(log_batch_max_height);
+            let batch_index_bits = &index_bits[bits_reduced..];
+
             let op_ids = if perm_config.is_arity4_shape() {
                 verify_batch_circuit_arity4::<F, EF>(
                     builder,
                     perm_config,
                     &commitment_cap,
                     &dimensions,
-                    index_bits,
+                    batch_index_bits,
                     batch_openings,
                 )
             } else {
@@ -1175,7 +1186,7 @@ where
                     perm_config,
                     &commitment_cap,
                     &dimensions,
-                    index_bits,
+                    batch_index_bits,
                     batch_openings,
                     salts_for_batch,
                 )
